@@ -1,10 +1,11 @@
 (* C12  The API JSON is a complete, internally consistent inventory (container, serialisation order, ids). *)
 From Coq Require Import List String Ascii ZArith Bool Permutation Sorting.Sorted. Import ListNotations.
 From SV Require Import Lib.Str Model.Types Model.Api Model.FrontSmall Proofs.FrontSmallProofs.
+From SV Require Import Model.View Model.Front Proofs.WalkProofs.
 
 (* every top-level list is sorted by id and free of duplicates, whatever the order of registration *)
 Theorem C12_lists_sorted_nodup : forall (V : Type) (ops : list (str * V)),
-  Sorted (fun a b => key_leb a b = true) (sorted_entries (add_all ops)) /\ NoDup (map fst (sorted_entries (add_all ops))).
+  Sorted (fun a b => FrontSmallProofs.key_leb a b = true) (sorted_entries (add_all ops)) /\ NoDup (map fst (sorted_entries (add_all ops))).
 Proof. intros V ops. exact (to_dict_list_sorted_nodup ops). Qed.
 
 (* and holds exactly the registered entries *)
@@ -15,6 +16,26 @@ Proof. intros V d x. exact (to_dict_list_complete d x). Qed.
 Theorem C12_id_form : forall stack name, stack <> [] -> create_id stack name = join (K"/") stack ++ K"/" ++ name.
 Proof. exact id_form. Qed.
 
+(* WHOLE WALK: a module is registered under the id of its tree, and every function, class and enum it lists has the id
+   <module id>/<name> and is listed exactly once (the same statement as C03_front_module_inventory, read for the ids) *)
+Theorem C12_front_module_ids : forall al d pref_doc warn st m st' w,
+  walk_module al d pref_doc warn st m = Ok (st', w) -> vs_stack st = [] ->
+  exists md, vs_modules st' = dict_set (m_id md) md (vs_modules st) /\ m_id md = dots_to_slashes (mf_fullname m) /\
+    map f_name (m_functions md) = map fn_name (member_funcs (walked m)) /\
+    map f_id (m_functions md) = map (fun f => m_id md ++ K"/" ++ fn_name f) (member_funcs (walked m)) /\
+    map c_name (m_classes md) = map cd_name (member_classes (walked m)) /\
+    map c_id (m_classes md) = map (fun c => m_id md ++ K"/" ++ cd_name c) (member_classes (walked m)) /\
+    map e_name (m_enums md) = map cd_name (member_enums (walked m)) /\
+    map e_id (m_enums md) = map (fun c => m_id md ++ K"/" ++ cd_name c) (member_enums (walked m)).
+Proof. exact module_inventory. Qed.
+(* every node of the walk leaves the frames below it untouched and keeps the header (id, name, publicity) of the frame it
+   was entered on: declarations are attached to their own owner and to no other *)
+Theorem C12_front_single_owner : forall al d pref_doc warn m st st' w top rest,
+  walk_member al d pref_doc warn st m = Ok (st', w) -> vs_stack st = top :: rest -> (forall f, top <> FFunc f) ->
+  exists top', vs_stack st' = top' :: rest /\ hdr_eq top top'.
+Proof. exact walk_member_single_owner. Qed.
 Print Assumptions C12_lists_sorted_nodup.
 Print Assumptions C12_lists_complete.
 Print Assumptions C12_id_form.
+Print Assumptions C12_front_module_ids.
+Print Assumptions C12_front_single_owner.
